@@ -7,6 +7,18 @@ PY = '/venv/bin/python -B -m vf.run'
 
 # id -> (engine, category, technique, level text, level_note, design_ref)
 CHECKS = {
+ 'C02': ('QX+DM', 'exploration',
+         'bounded-exhaustive enumeration of the C01 query space translated by the real SQLite/PostgreSQL/MySQL code; dialect SQL executed on a SQLite substrate under documented function models',
+         'All 3,891 depth-1 QX expressions (+ depth-0 operands) in every C01 quick position, 40 join/group/inheritance forms, 24 LIMIT/OFFSET/page/first forms, 18 count()/exists() forms and 7 COUNT(DISTINCT row) forms (thorough: + 102,996 depth-2 expressions of the decided fragment) through five real provider classes: SQLite (real engine), PostgreSQL and MySQL (SQL text executed on the DM substrate, results returned through Pony\'s own fetch pipeline), Oracle and CockroachDB (render and bind only). Judged against the Python reference evaluator; only what differs between dialects, or fails on a non-SQLite dialect while SQLite agrees with Python, is reported under C02.',
+         'Conformance to DOCUMENTED dialect semantics on the decided fragment only (DM function models are trusted base): 31% (PostgreSQL) / 38% (MySQL) of translated queries are undecided (collation, decimal/float division, date arithmetic, ...) and never judged; Oracle/CockroachDB are only rendered. Agreement with live PostgreSQL/MySQL/Oracle/CockroachDB servers is NOT established.', 'DESIGN.md section 3 C02'),
+ 'C03': ('VX', 'exploration',
+         'bounded-exhaustive enumeration of generator/lambda sources compiled by CPython and decompiled; exhaustive truth-table / symbolic equivalence of the ast.unparse-rendered tree',
+         'All boolean-structure skeletons (and/or/not/==/</chains/is None/conditional expression) of depth <= 2 in 13 loop/position contexts (thorough: all with <= 4 operators, plus all with 5 in the if position), constant-leaf labelings, a leaf-form catalogue of about 430 forms (operators, attribute chains, calls with */** arguments, subscripts, slices, displays, f-strings, nested generators, lambdas) under 6 wrappers in 4 contexts: the decompiled tree, rendered with ast.unparse, has the same loop structure and the same value/truthiness under every assignment of free names over {0,1,2} ({None,1} for is-None operands) or under symbolic evaluation. Rejections are counted. Decompile-cache histories over dropped code objects (recycled id(code)) and closures.',
+         'Decided for CPython 3.12 bytecode only. 5-operator skeletons are covered in the if position only. 133 known minimal shapes (conditional expressions in boolean contexts, chained comparisons, constant operands, *args calls).', 'DESIGN.md section 3 C03'),
+ 'C04': ('VX', 'exploration',
+         'bounded-exhaustive regeneration check of ast2src plus end-to-end comparison of bound parameters with in-place Python evaluation; cache histories over call sites',
+         'Oracle 1: ast2src over an 87-operator, 20-leaf alphabet (all single-compound-child pairs, full depth-2 trees over level representatives; thorough: all 3-chains and depth-3 class representatives, 2.2M trees) judged by re-parsing. Oracle 2: 2.7k (thorough 35k) typed expressions used as external sub-expression of a real query on SQLite through 5 front ends with names shadowed across locals/closure/globals under 6 assignments; the bound DB-API parameter (read from the driver log) equals in-place Python evaluation. Cache histories: 129 steps over call sites with differing namespaces, parameter types and shadowing.',
+         'SQLite only; values within +-2^62; decompiler mis-decompilations are attributed to C03; ast.parse/unparse/compile of CPython 3.12 are trusted. 32 known findings.', 'DESIGN.md section 3 C04'),
  'C17': ('FX', 'fault_enumeration',
          'enumeration of every driver-call index x fault class (and real fork crashes) over write programs, judged against the committed snapshots of the fault-free run',
          'Write programs of depth <= 3 (creates, updates, cascading deletes, many-to-many links, raw db.execute statements, optional commit() in the middle, guarded commit/raw statements) x {optimistic, immediate, serializable} x every driver-call index x {OperationalError, IntegrityError, InterfaceError, lost acknowledgement} on the real SQLite engine with the default rollback journal; an observer connection reads the committed rows before every call (what abandoning the connection there leaves) and forked children os._exit at chosen calls (hot journals replayed). Oracle: the committed rows equal snapshot S_a, or S_a+1 only if a driver commit was issued since the last acknowledgement, and the injected error leaves the session. PostgreSQL path: the real PGProvider and core.py on a fake psycopg2 connection with autocommit flag and statement log, 5 fault classes including reconnectable ones: no write with autocommit on, the writes of a commit interval sit in one transaction which is the one committed.',
